@@ -11,5 +11,7 @@ func TestWorld(t *testing.T) {
 		"C18": runC18,
 		"C19": runC19,
 		"C20": runC20,
+		"C21": runC21,
+		"C27": runC27,
 	})
 }
